@@ -184,6 +184,35 @@ def report_property_failure(ctx, line, name="history"):
                       name=name)
 
 
+def run_forced(ctx):
+    """Histories whose intermediate start-ups were overridden: any arrangement of versions in the table."""
+    quick = ctx.tier == "quick"
+    lines, _ = go_cases(ctx, "forced", ctx.seed, 300 if quick else 3000, shards=1 if quick else 8)
+    lines = list(dict.fromkeys(lines))
+    if not lines:
+        return False
+    res = pure.coq_check(ctx, "forks_forced", "forks_case", lines, ["forced_agrees", "forced_property_on"], header=HEADER, shard=600)
+    ctx.coverage["evaluations"] = ctx.coverage.get("evaluations", 0) + len(lines)
+    ctx.coverage.setdefault("distribution", {})["forced_histories"] = {
+        "cases": len(lines), "refused_final": sum(1 for l in lines if parse(l)["go_verdict"] != 0)}
+    found = False
+    for i in res["forced_agrees"][:3]:
+        c = parse(lines[i])
+        ctx.add_violation("version lock: on a database whose intermediate start-ups were overridden the real CheckHardForks and the verified model disagree "
+                          "(final verdict %s, table %s)" % (VERDICTS.get(c["go_verdict"]), c["rows"][:12]),
+                          {"kind": "forced-history", "history": history_of(c), "observed": c, "coq_case": lines[i],
+                           "replay_cmd": "gen/forks forced <seed> <n>: sessions without start-up checks, then the real CheckHardForks"},
+                          name="forced-history")
+        found = True
+    for i in [i for i in res["forced_property_on"] if i not in res["forced_agrees"]][:3]:
+        c = parse(lines[i])
+        ctx.add_violation("version lock: the final start-up verdict %s contradicts the characterisation on a database whose intermediate start-ups were overridden"
+                          % VERDICTS.get(c["go_verdict"]),
+                          {"kind": "forced-history", "history": history_of(c), "observed": c, "coq_case": lines[i]}, name="forced-property")
+        found = True
+    return found
+
+
 def run_histories(ctx, searching=False):
     quick = ctx.tier == "quick"
     lines, real = go_cases(ctx, "random", ctx.seed, 400 if quick else 5000, shards=1 if quick else 8)
@@ -312,6 +341,7 @@ def run(ctx):
         run_replay(ctx)
         return
     run_histories(ctx)
+    run_forced(ctx)
 
 
 def search(ctx, why):
@@ -322,4 +352,8 @@ def search(ctx, why):
     except Exception as e:  # the oracle then runs through its Python mirror
         ctx.notes.append("Corr/Forks.vo not rebuilt: %r" % (e,))
     run_histories(ctx, searching=True)
+    try:
+        run_forced(ctx)
+    except Exception as e:
+        ctx.notes.append("forced histories not evaluated: %r" % (e,))
     return bool(ctx.violations)
